@@ -63,4 +63,7 @@ Emit == phase = "done" =>
           PrintT(<<"BEHAVIOUR", ToJson([toks |-> toks, calls |-> calls, delivered |-> delivered,
                                         req |-> [bounded |-> PumpBounded]])>>)
 KindsDef == {"LF", "COMMENT", "LEFT_BRACE", "RIGHT_BRACE", "CONTROL", "PRAGMA", "SEMICOLON", "IDENT"}
+\* a small alphabet for long sequences: the locals of ReadPeek (comments collected, blank-line count, the pragma
+\* skip) and the tokenizer's peeked token carry over many calls
+DeepKinds == {"LF", "COMMENT", "PRAGMA", "SEMICOLON", "IDENT"}
 =============================================================================
